@@ -48,7 +48,8 @@ type Op struct {
 	Lower  bool    `json:"lower,omitempty"`
 	Def    bool    `json:"def,omitempty"` // create with sod.DefaultSchema-like value (no custom descriptors)
 	Ms     int     `json:"ms,omitempty"`
-	Alt    int     `json:"alt,omitempty"` // which of several equivalent API entry points makes the call
+	Alt    int     `json:"alt,omitempty"`    // which of several equivalent API entry points makes the call
+	Shadow bool    `json:"shadow,omitempty"` // (open) a second collection lives in the same database and is used between the calls
 }
 
 type DCons struct {
@@ -70,18 +71,22 @@ type Exec struct {
 	stats   map[string]int
 	aborted bool
 	// file-operation observation (only with the shimmed copy of the package)
-	fsops    []string // classified mutations of the current call
-	nmut     int      // mutations so far in this history
-	crashAt  int      // stop the process just before the n-th mutation (0 = never)
-	failAt   int      // fail the n-th mutation with an I/O error (0 = never)
-	curCall  func() string
-	stateOut string
-	failed   bool
-	lower    bool
-	mu       *sync.Mutex
-	sink     func(line string) // when set, trace lines go there instead of `out`
-	before   string            // observation sweep taken before the current call (fault mode)
-	reported bool
+	fsops       []string // classified mutations of the current call
+	nmut        int      // mutations so far in this history
+	crashAt     int      // stop the process just before the n-th mutation (0 = never)
+	failAt      int      // fail the n-th mutation with an I/O error (0 = never)
+	curCall     func() string
+	stateOut    string
+	failed      bool
+	lower       bool
+	mu          *sync.Mutex
+	sink        func(line string) // when set, trace lines go there instead of `out`
+	before      string            // observation sweep taken before the current call (fault mode)
+	aidxTargets map[string]reflect.Value
+	shadow      bool       // a second collection (type U) shares the database and the Schema value
+	noise       *rand.Rand // PRNG of the calls made on it
+	shadowIDs   []string
+	reported    bool
 }
 
 // A twin of the flusher's polling loop: a goroutine of this process that sleeps in the same 100 ms
@@ -436,10 +441,15 @@ func (e *Exec) Run(op Op) {
 		e.before = e.snapshot()
 	}
 	defer e.afterFault(op)
+	if e.shadow && e.db != nil && op.Op != "open" && op.Op != "reopen" && op.Op != "close" && op.Op != "sleep" && op.Op != "tick" {
+		e.shadowNoise()
+	}
 	switch op.Op {
 	case "open":
 		sod.LowercaseNames = op.Lower
 		e.lower = op.Lower
+		e.shadow = op.Shadow && !shimEnabled
+		e.noise = rand.New(rand.NewSource(int64(e.lines)*131 + 7))
 		shimInstall(e.hook)
 		e.db = sod.Open(e.root)
 		e.emit(fmt.Sprintf("open live=%s hooks=1 lower=%d", liveToken(), b2i(op.Lower)), "ok")
@@ -469,6 +479,13 @@ func (e *Exec) Run(op Op) {
 		}
 		e.curCall = func() string { return call.String() }
 		res := guard(func() string { return errClass(e.db.Create(&T{}, sch)) })
+		if e.shadow {
+			// the second collection is created from the SAME Schema value (it shares whatever that
+			// value points to), with its own descriptors
+			su := sch
+			su.Fields, su.ObjectIndex = nil, nil
+			e.db.Create(&U{}, su)
+		}
 		if res == "ok" {
 			// remember the on-disk naming of the collection (first successful create fixes it)
 			if e.collDir() != "" {
@@ -774,12 +791,24 @@ func (e *Exec) Run(op Op) {
 		}))
 
 	case "aidx":
-		e.emit(fmt.Sprintf("aidx %s", hx(op.Field)), guard(func() string { return e.assignIndex(op.Field) }))
+		e.emit(fmt.Sprintf("aidx %s", hx(op.Field)), guard(func() string { return e.assignIndexInto(op.Field, op.Alt == 1) }))
 
 	case "consistent":
 		e.emit("consistent", guard(func() string { return e.consistent() }))
 	case "control":
-		e.emit("control", guard(func() string { return errClass(e.db.Control()) }))
+		if e.shadow {
+			// Control checks every collection of the database, and reports a collection with
+			// pending asynchronous writes: the shadow collection is flushed first
+			e.db.FlushAllAndCommit(&U{})
+			e.db.Repair(&U{}) // writes lost with an abandoned handle are not this collection's business
+		}
+		e.emit("control", guard(func() string {
+			err := e.db.Control()
+			if err != nil && os.Getenv("HARNESS_DEBUG") != "" {
+				fmt.Fprintf(os.Stderr, "control: %v\n", err)
+			}
+			return errClass(err)
+		}))
 	case "repair":
 		e.curCall = func() string { return "repair" }
 		res := guard(func() string { return errClass(e.db.Repair(&T{})) })
@@ -834,6 +863,9 @@ func (e *Exec) Run(op Op) {
 
 	case "tags":
 		e.emitTags()
+
+	case "drop":
+		e.emit("drop", guard(func() string { return errClass(e.db.Drop()) }))
 
 	case "simg":
 		e.emit("simg", e.schemaImage())
@@ -972,7 +1004,11 @@ func (e *Exec) ls() string {
 	return res
 }
 
-func (e *Exec) assignIndex(field string) string {
+func (e *Exec) assignIndex(field string) string { return e.assignIndexInto(field, false) }
+
+// assignIndexInto: with `reuse`, the target is the slice the previous AssignIndex of that field
+// filled (a caller polling an index into the same variable)
+func (e *Exec) assignIndexInto(field string, reuse bool) string {
 	li := leafIndex(field)
 	var err error
 	var toks []string
@@ -1006,6 +1042,15 @@ func (e *Exec) assignIndex(field string) string {
 		target = reflect.New(reflect.TypeOf([]int16{}))
 	default:
 		target = reflect.New(reflect.TypeOf([]int64{}))
+	}
+	if reuse {
+		if e.aidxTargets == nil {
+			e.aidxTargets = map[string]reflect.Value{}
+		}
+		if prev, ok := e.aidxTargets[field]; ok && prev.Type() == target.Type() {
+			target = prev
+		}
+		e.aidxTargets[field] = target
 	}
 	err = e.db.AssignIndex(&T{}, field, target.Interface())
 	if err != nil {
@@ -1361,4 +1406,48 @@ func (e *Exec) schemaImage() string {
 		return []byte(fmt.Sprintf(`"h%d"`, e.handle(string(m[1:len(m)-1]))))
 	})
 	return hex.EncodeToString(data)
+}
+
+// U is the type of the shadow collection: calls on it must not change anything observable about
+// the collection of T (non-interference between collections of one database).
+type U struct {
+	sod.Item
+	A int64  `sod:"index"`
+	S string `sod:"unique"`
+}
+
+func (e *Exec) shadowNoise() {
+	r := e.noise
+	switch r.Intn(9) {
+	case 0, 1, 2:
+		u := &U{A: int64(r.Intn(5)), S: fmt.Sprintf("u%d", r.Intn(1000000))}
+		if e.db.InsertOrUpdate(u) == nil {
+			e.shadowIDs = append(e.shadowIDs, u.UUID())
+		}
+	case 3:
+		if len(e.shadowIDs) > 0 {
+			u := &U{}
+			u.Initialize(e.shadowIDs[r.Intn(len(e.shadowIDs))])
+			e.db.Delete(u)
+		}
+	case 4:
+		e.db.Count(&U{})
+		e.db.Search(&U{}, "A", ">=", int64(r.Intn(5))).Collect()
+	case 5:
+		e.db.FlushAll(&U{})
+	case 6:
+		e.db.FlushAllAndCommit(&U{})
+	case 7:
+		// its settings are changed on the live handle
+		s2 := sod.DefaultSchema
+		s2.Cache = r.Intn(2) == 0
+		if r.Intn(3) > 0 {
+			// never reached on its own: a flusher of the shadow collection must not fire after the
+			// history's directory is gone (the library panics when its background flush fails)
+			s2.Asynchrone(1000+r.Intn(3), time.Hour)
+		}
+		e.db.Create(&U{}, s2)
+	case 8:
+		e.db.All(&U{})
+	}
 }
